@@ -211,3 +211,10 @@ META["C06"] = dict(
          "parallelism threshold; TSan watches the concurrent prover for data races.",
     note="A schedule-dependent divergence that needs a rarer interleaving than the repeated runs produce is out of reach.",
 )
+META["C07"] = dict(
+    technique="round-trip monitor over enumerated constructor-accepted boundary values and generated proofs (value equality, exact consumption, re-encoding, verdict)",
+    text="Every boundary value the constructors accept is encoded and decoded; the decoded value must be equal, the reader "
+         "exhausted and the re-encoding byte-identical; real proofs and each of their components go through the same "
+         "oracle and the decoded proof must get the same verdict.",
+    note="Known finding: hash rate 256 (known_findings.json). Interiors are sampled.",
+)
